@@ -445,6 +445,13 @@ theorem memo_noninterference (cmp : Cmp ε τ) (s₁ s₂ : TkState τ) (h₁ : 
     (newTokenizer cmp s₁ m p).1.map (·.1) = (newTokenizer cmp s₂ m p).1.map (·.1) := by
   rw [newTokenizer_result cmp s₁ h₁, newTokenizer_result cmp s₂ h₂, hg]
 
+/-- the cache is a cache: constructing a Tokenizer with the same arguments again (or with a dict of the same items:
+the key is built from the sorted items) finds the entry and hands out the stored tables -/
+theorem second_lookup_is_a_hit (cmp : Cmp ε τ) (s : TkState τ) (m : MacrosArg) (p : ProdsArg) (t : τ) (hit : Bool)
+    (h : (newTokenizer cmp s m p).1 = .ok (t, hit)) :
+    (newTokenizer cmp (newTokenizer cmp s m p).2 m p).1 = .ok (t, true) :=
+  newTokenizer_again cmp s m p t hit h
+
 /-- non-vacuity: the empty cache and everything reachable from it is sound -/
 example (cmp : Cmp ε τ) (G : TkGlobals) (ops : List TkOp) : Sound cmp (tkRun cmp (TkState.cold G) ops) :=
   tkRun_sound cmp _ (sound_cold cmp G) ops
